@@ -264,6 +264,7 @@ def sc_oc(V, P, cfg):
     else:
         sx = [pym.Signal("x%d" % k, (v.copy() if isinstance(v, np.ndarray) else v)) for k, v in enumerate(x0)]
     sf = pym.Signal("f")
+    init_objs = [s_.state for s_ in sx]
     idle = bool(cfg.get("idle_first"))
     iters = cfg.get("iters", 1)
     net = pym.Network(Mod(sx, sf, coef=coef, idle_calls=1, offset=1) if idle else Mod(sx, sf, coef=coef))
@@ -322,21 +323,10 @@ def sc_oc(V, P, cfg):
         cl.true("x%d:size" % k, ok, "write-back")
         shapes_ok = shapes_ok and ok
         fl += list(np.asarray(got, dtype=object if V.symbolic else float).reshape(-1)) if ok else [None] * lens[k]
-    # did this path leave through the step-size test (design not written back) ?
-    if V.symbolic:      # object identity: the start symbols themselves are still in the signals
-        same = []
-        for k in range(len(sizes)):
-            if isinstance(x0[k], np.ndarray):
-                same.append(isinstance(final[k], np.ndarray) and final[k].shape == x0[k].shape
-                            and all(a is b for a, b in zip(np.asarray(final[k], dtype=object).reshape(-1),
-                                                           np.asarray(x0[k], dtype=object).reshape(-1))))
-            else:
-                same.append(final[k] is x0[k])
-        written = not all(same)
-    else:
-        written = any(np.size(final[k]) != np.size(x0[k]) or
-                      np.any(np.asarray(final[k], dtype=float).reshape(-1) != np.asarray(x0[k], dtype=float).reshape(-1))
-                      for k in range(len(sizes)))
+    # did this run leave through the step-size test (design not written back) ?  minimize_oc assigns new array objects to the
+    # variable signals when it writes a design back, so the state objects themselves tell (in both modes; comparing values
+    # would call an update that happens to reproduce the start design "not written")
+    written = not all(s_.state is o_ for s_, o_ in zip(sx, init_objs))
     obs["written"] = int(written)
     for j in range(n):
         if fl[j] is None:
